@@ -121,7 +121,7 @@ func c16Decode(data []byte, target string) *c16ACase {
 	}
 	c.FixSums = len(c.Muts)%2 == 1
 	if opts&1 == 0 && target == "extract" {
-		c.Entries = c16WithDirs(c.Entries)
+		c.Entries = c16WithDirs(c.Entries, c.Plants)
 	}
 	return c
 }
